@@ -21,7 +21,7 @@ RULE = (
     "jitted np.random.rand stream must reproduce every counter and rand_ptr, and every observed batch must be the next unused 2048-slice. "
     "(3) distribution: R replicates of N unit adds (N in {200,1000,5000} for 4 configurations, plus single bulk adds of 65536, 70000 and 200000) for 4 log8 configurations; empirical CDF of the final counter within the "
     "DKW band (delta=1e-10) of the exact Markov-chain CDF; pooled refill batches and pooled entropy-seeded initial batches within the DKW band of "
-    "U[0,1), all in [0,1), distinct between sketches. (4) Hypothesis machine over 2 log sketches with merges and adversarial planted draws: "
+    "U[0,1), all in [0,1), distinct between sketches. (4) Hypothesis machine over 2 log sketches with merges, adversarial planted draws and single adds of 2^63-1 .. 2^64-1 (sketches with max_count <= 10^6): "
     "query(k) >= min(true,nr+1), collision-free keys with true <= nr+1 exact. Non-trivial: a case in which a draw is consumed (counter >= "
     "num_reserved) or a refill occurs. Distinct = distinct (configuration, counter, draw) / (configuration, N) / (configuration, step list)."
 )
@@ -422,7 +422,7 @@ def _machine_shard(arg):
     M = machines.make_machine(
         "C06Machine", LowerBound, rec, holder, CFG=LOG_CFG, N=2,
         VALUES=st.one_of(st.sampled_from([0, 1, 1, 2, 3, 16, 17, 100]), st.integers(0, 40), st.sampled_from([1024, 1025, 2000])),
-        DRAWS=st.one_of(st.just([ONE_MINUS]), st.just([ONE_MINUS]), DRAWS), SAVELOAD=True, MAXKEY=24,
+        DRAWS=st.one_of(st.just([ONE_MINUS]), st.just([ONE_MINUS]), DRAWS), SAVELOAD=True, MAXKEY=24, add_huge_log=machines.huge_log_rule(),
     )
     common.run_machine(M, common.derive_seed(seed, "C06", shard), n_examples, steps, holder, rec, retry=lambda c_: machines.replay_trace(c_, LowerBound))
     return rec
